@@ -598,6 +598,15 @@ def run(rep, tier):
     # phase 1: the corpus contracts and a few branching programs, whatever the machine load;
     # phase 2: the generated rest within the remaining time budget of the tier
     t_pool = time.time()
+    # everything the workers (and halmos inside them) put into the temp dir goes below one directory that is
+    # removed at the end, also when a worker is killed on timeout
+    import shutil
+    import tempfile
+
+    tmp_base = tempfile.mkdtemp(prefix="c20_run_")
+    old_tmp = (tempfile.tempdir, os.environ.get("TMPDIR"))
+    tempfile.tempdir = tmp_base
+    os.environ["TMPDIR"] = tmp_base
     first = l3_tasks[:4] + l2_tasks[:8]
     rest = []
     a, b = l3_tasks[4:], l2_tasks[8:]
@@ -608,6 +617,12 @@ def run(rep, tier):
     out2 = pool.run_tasks(any_task, rest, timeout=120 if tier == "quick" else 600, total_timeout=budget) if budget > 8 and rest else [("timeout", None)] * len(rest)
     tasks = first + rest
     out = list(out1) + list(out2)
+    tempfile.tempdir = old_tmp[0]
+    if old_tmp[1] is None:
+        os.environ.pop("TMPDIR", None)
+    else:
+        os.environ["TMPDIR"] = old_tmp[1]
+    shutil.rmtree(tmp_base, ignore_errors=True)
     n_l3 = n_branching = n_red = 0
     for (kind, payload), (st, val) in zip(tasks, out):
         if kind == "l3":
